@@ -490,31 +490,34 @@ impl IoLoop {
             HEARTBEAT => self.inner.process_heartbeat_timers()?,
             SET_BLOCKED_TX => match state {
                 ConnectionState::Steady(ch0_slot) => self.handle_set_blocked_tx(ch0_slot)?,
+                // The channel 0 slot was dropped earlier in this same batch of events (e.g.,
+                // the server's Close came first); this wakeup is stale. The client's request
+                // fails on its side because the queues are disconnected.
                 ConnectionState::ServerClosing(_)
                 | ConnectionState::ClientException
-                | ConnectionState::ClientClosed => {
-                    unreachable!("ch0 slot cannot be readable after it is dropped")
-                }
+                | ConnectionState::ClientClosed => (),
             },
             ALLOC_CHANNEL => match &state {
                 ConnectionState::Steady(ch0_slot) => {
                     self.inner.allocate_channel(ch0_slot, &self.poll)?
                 }
+                // The channel 0 slot was dropped earlier in this same batch of events (e.g.,
+                // the server's Close came first); this wakeup is stale. The client's request
+                // fails on its side because the queues are disconnected.
                 ConnectionState::ServerClosing(_)
                 | ConnectionState::ClientException
-                | ConnectionState::ClientClosed => {
-                    unreachable!("ch0 slot cannot be readable after it is dropped")
-                }
+                | ConnectionState::ClientClosed => (),
             },
             Token(0) => match &state {
                 ConnectionState::Steady(ch0_slot) => {
                     self.inner.handle_channel0_readable(ch0_slot)?
                 }
+                // The channel 0 slot was dropped earlier in this same batch of events (e.g.,
+                // the server's Close came first); this wakeup is stale. The client's request
+                // fails on its side because the queues are disconnected.
                 ConnectionState::ServerClosing(_)
                 | ConnectionState::ClientException
-                | ConnectionState::ClientClosed => {
-                    unreachable!("ch0 slot cannot be readable after it is dropped")
-                }
+                | ConnectionState::ClientClosed => (),
             },
             Token(n) if n <= u16::max_value() as usize => {
                 self.inner.handle_channel_readable(n as u16)?
